@@ -55,7 +55,7 @@ def states (args : List String) : String :=
     | .error _ => "bad-op"
     | .ok j =>
       let snaps := match j.getObjValD "snaps" with | .arr a => a.toList.map snapOf | _ => []
-      let out := (headStates snaps (recsOf j)).map fun (e, s) => s!"{e.path}|{e.alert}|{e.name}={stateStr s}"
+      let out := (headStates snaps (recsOf j)).map fun (e, s) => s!"{e.path}|{e.alert}|{e.name}|{e.content}={stateStr s}"
       String.intercalate ";" (sortStrs out)
   | _ => "bad-op"
 
